@@ -206,6 +206,11 @@ func c23Build(p *c23Pkt) *c23Conc {
 		if p.Window != 0 {
 			w = p.Window
 		}
+		if p.Len == 0 && p.Sess == 2 {
+			// packets without a payload tag are told apart by their bytes: identical ones exist inside a session only
+			// (there the earliest match is exact), never across sessions
+			w -= 16
+		}
 		binary.BigEndian.PutUint16(l4[14:], uint16(w))
 		if p.TCPOpt {
 			copy(l4[20:], []byte{1, 1, 8, 10, 0, 0, 0x11, byte(f), 0, 0, 0x22, byte(f)})
@@ -240,6 +245,9 @@ func c23Build(p *c23Pkt) *c23Conc {
 	ttl := byte(64)
 	if p.Proto != "tcp" && p.Hv != 0 {
 		ttl -= byte(p.Hv)
+	}
+	if p.Proto != "tcp" && p.Len == 0 && p.Sess == 2 {
+		ttl -= 8 // see the TCP window above
 	}
 	var ip []byte
 	if p.Fam == 4 {
